@@ -111,7 +111,11 @@ Pairs(S) == {<<x, y>> : x \in S, y \in S}
 \* a valid operation followed by a broken one: nothing of the list may run
 HalfBroken == {<<RR("a", <<"x">>), [Base["remove_columns"] EXCEPT !.fault = [f |-> "missing", p |-> "ignore_missing"]]>>,
                <<RO(<<"b", "a">>, TRUE, TRUE), FCn("a", <<"m">>)>>,
-               <<[Base["rename_columns"] EXCEPT !.fault = [f |-> "unknown-operation", p |-> ""]], RR("a", <<"x">>)>>}
+               <<[Base["rename_columns"] EXCEPT !.fault = [f |-> "unknown-operation", p |-> ""]], RR("a", <<"x">>)>>,
+               \* the SAME kind of operation twice, the FIRST one breaking its operation-specific rule
+               <<FCvn("a", <<"x", "1">>, <<"m">>), FCvn("a", <<"x">>, <<"m">>)>>,
+               <<RM(<<"a">>, <<"m">>, << <<"x", "X">>, <<"y">> >>, TRUE), RM(<<"a">>, <<"m">>, << <<"x", "X">> >>, TRUE)>>,
+               <<RR("a", <<"y">>), FCn("a", <<"m">>), FCvn("a", <<"x">>, <<"n">>)>>}
 SeqOpLists == Pairs(SeqPool) \cup HalfBroken
 SeqOpListsBig == Pairs(SeqPoolBig) \cup HalfBroken
                \cup {<<x, y, z>> : x \in {RO(<<"b", "a">>, TRUE, TRUE), SP("a", Evs2, FALSE)},
